@@ -38,21 +38,37 @@ SUITES = {
         trace=dict(module="Trace_MinerControl", cfg_in="Trace_MinerControl.cfg.in"),
         props=["C13", "C14"],
     ),
+    "market": dict(
+        mc=[dict(module="MC_Market", cfg="MC_Market.cfg", timeout=tiered(1500, 7200), workers=tiered(6, 14))],
+        sim=dict(module="MC_Market", cfg="Sim_Market.cfg", num=tiered(100, 2000), depth=24),
+        tour_cap=tiered(1500, 10 ** 9),
+        driver="market",
+        driver_args=lambda tier: ["--random", 150 if tier == "quick" else 5000, "--len", 50],
+        trace=dict(module="Trace_Market", cfg_in="Trace_Market.cfg.in"),
+        props=["C06", "C07", "C08", "C01", "C05"],
+    ),
 }
 
 # property -> suites whose traces carry formulas tagged with that property
 PROPS = {
     "C16": dict(suites=["paych"], title="Payment channel: vouchers redeem once and the payout is exact"),
+    "C06": dict(suites=["market"], title="Market escrow: locked funds equal outstanding deal obligations"),
+    "C07": dict(suites=["market"], title="Deal payments are exact and independent of the settlement schedule"),
+    "C08": dict(suites=["market"], title="Deal lifecycle: unique publication, one timely activation by the provider"),
     "C13": dict(suites=["minerctl"], title="Control of a miner changes hands only by two-sided, delayed handover"),
     "C12": dict(suites=["multisig"], title="Multisig: spending needs a quorum of current signers, once, within the lock"),
 }
 
 NOT_BUILT = "check not built yet in this round (work in progress; see DESIGN.md build order)"
 NOT_APPLICABLE = {p: NOT_BUILT for p in
-                  ["C01", "C02", "C03", "C04", "C05", "C06", "C07", "C08", "C09", "C10", "C11",
+                  ["C01", "C02", "C03", "C04", "C05", "C09", "C10", "C11",
                    "C14", "C15", "C17", "C18", "C19", "C20"]}
 
+_MKT = ("Bounded exhaustive TLC model checking of spec/Market.tla with the REAL protocol constants (180-day minimum duration, 30-day cron interval; time jumps only between deal boundaries and scheduled cron epochs, so the state space is small and every behaviour is replayable 1:1): every interleaving of deposits, withdrawals, batch publication with invalid entries, both activation paths, settlement, sector termination and the per-epoch cron over <= 2 deals; formulas as invariants over state + event-derived ghosts and as action properties. Conformance: a transition tour of the model, TLC simulation behaviours and guided random schedules run on the real market actor with real miner actors as providers; every recorded step validated by TLC. ")
 LEVEL_TEXT = {
+    "C06": _MKT + "C06 formulas: LockedIsObligation, LockedLeqEscrow, TotalsMatch, WithdrawExact, EscrowOnlyOwnMoves.",
+    "C07": _MKT + "C07 formulas: EscrowExplained (every party's escrow equals deposits - withdrawals +/- the ideal per-deal payment formula at every moment, whatever the settlement schedule), BurnExact, EndLegit.",
+    "C08": _MKT + "C08 formulas: IdsFresh, NoTwinDeals, PendingIsLive, PublishRules, PublishFunded, ActivationRules, ActivatedOnce.",
     "C13": "Bounded exhaustive TLC model checking of spec/MinerControl.tla (all interleavings of the owner, worker and beneficiary hand-over protocols, withdrawals, the cron pending-worker step and epoch advances by owner, proposed owner, beneficiary, nominee and strangers; C13 formulas as action properties over a ghost that re-derives approvals from the accepted calls) + conformance: TLC-exported behaviours and random schedules run on a real miner actor created through the power actor; each recorded step is validated by TLC.",
     "C12": "Bounded exhaustive TLC model checking of spec/Multisig.tla (every interleaving of propose/approve/cancel by signers and outsiders with admin transactions and re-entrant self-calls executed inside the approving step, within small constants) + conformance: TLC-exported behaviours and random schedules run on the real multisig actor (created through init, inner sends really executed) and each recorded step is validated by TLC against the C12 formulas and the spec's transition function.",
     "C16": "Bounded exhaustive TLC model checking of spec/Paych.tla (all voucher/settle/collect interleavings within small constants, C16 formulas as invariants and action properties) + conformance: TLC-exported behaviours and random schedules are executed on the real paych actor and every recorded step is validated by TLC against the same formulas and the spec's transition relation.",
